@@ -80,20 +80,23 @@ def inverse_4tuple(rep, fnd, table, records, pid):
     rng = np.random.default_rng(17000 + seed())
     n_ok = 0
     for r in records:
-        if r.get("kind") != "dwt2.inv" or r["none"] or r["dtype"] != "f64":
+        if r.get("kind") != "dwt2.inv" or r["dtype"] != "f64":
             continue
+        none = set(r["none"])          # levels handed over as None ("treated as zeros"): the module's own branch
         mode, H, W, J, Lc, Lr = r["mode"], r["H"], r["W"], r["J"], r["Lc"], r["Lr"]
         cfg = {"mode": mode, "H": H, "W": W, "Lc": Lc, "Lr": Lr, "J": J}
+        if none:
+            cfg["none"] = sorted(none)
         case = {"api": "DWTInverse(4-tuple)", "check": "inverse_4tuple", "cfg": cfg}
         g = {"col": (dwtlib.int_taps(rng, Lc, 3), dwtlib.int_taps(rng, Lc, 3)),
              "row": (dwtlib.int_taps(rng, Lr, 3), dwtlib.int_taps(rng, Lr, 3))}
         wave = (g["col"][0], g["col"][1], g["row"][0], g["row"][1])
-        exp = compose_inv2(table, r, g, set(), "shape")
+        exp = compose_inv2(table, r, g, none, "shape")
         if exp is None:
             continue
-        obs = extract_inv2(r, wave, set(), "f64")
+        obs = extract_inv2(r, wave, none, "f64")
         rep.validated()
-        rep.nontriv(("inv4", mode, H, W, Lc, Lr, J))
+        rep.nontriv(("inv4", mode, H, W, Lc, Lr, J, tuple(sorted(none))))
         if isinstance(obs, dwtlib.Raised):
             f = fnd.match(pid, "DWTInverse(4-tuple)", cfg, "raises")
             if f:
@@ -104,9 +107,20 @@ def inverse_4tuple(rep, fnd, table, records, pid):
             continue
         Y, (oh, ow) = obs
         E, (eh, ew) = exp
-        good = (oh, ow) == (eh, ew) and dwtlib.eq_int(Y, E)
+        if not none:
+            good = (oh, ow) == (eh, ew) and dwtlib.eq_int(Y, E)
+        else:
+            # a None level leaves the extent of its zeros to the module (as long as the running lowpass, or as long as a
+            # forward transform would have made it): both readings of "treated as zeros" are accepted, on the common part
+            total = Y.shape[1]
+
+            def crop(M, h, w):
+                return M.reshape(h, w, total)[:H, :W]
+            alt = compose_inv2(table, r, g, none, "like")
+            good = oh >= H and ow >= W and (np.array_equal(crop(Y, oh, ow), crop(E, eh, ew)) or (
+                alt is not None and np.array_equal(crop(Y, oh, ow), crop(alt[0], *alt[1]))))
         fun_ok = True
-        if good and J == 1:
+        if good and J == 1 and not none:
             lh, lw = r["lensH"][0], r["lensW"][0]
             n = lh * lw
             tot = 4 * n
